@@ -78,12 +78,6 @@ func vDefaultArgs(spec *OpSpec) []vArg {
 	return out
 }
 
-func vUvarint(x uint64) []byte {
-	var buf [binary.MaxVarintLen64]byte
-	n := binary.PutUvarint(buf[:], x)
-	return buf[:n]
-}
-
 // vCraft builds: version; intcblock; bytecblock; [prefix]; pushes of the args; the instruction.
 // fimm: index of the immediate that receives fval (or -1); sub: sub-opcode byte (or -1).
 func vCraft(v uint64, mode RunMode, opcode byte, spec *OpSpec, sub int, fimm int, fval byte) ([]byte, int) {
@@ -383,14 +377,6 @@ type vTraceTracer struct {
 	max     int
 }
 
-func vCalls(cx *EvalContext) []interface{} {
-	out := make([]interface{}, 0, len(cx.callstack))
-	for i := len(cx.callstack) - 1; i >= 0; i-- {
-		out = append(out, cx.callstack[i].retpc)
-	}
-	return out
-}
-
 func (t *vTraceTracer) BeforeOpcode(cx *EvalContext) {
 	if cx.caller != nil {
 		return
@@ -457,12 +443,6 @@ type vIns struct {
 	bytes  []byte
 	branch int // 0 none, 1 int16 offset at bytes[1:3], 2 varint offset after opcode, 3 switch table
 	target []int
-}
-
-func vVarint(x int64) []byte {
-	var buf [binary.MaxVarintLen64]byte
-	n := binary.PutVarint(buf[:], x)
-	return buf[:n]
 }
 
 func vGenLayout(r *vRand, v uint64) []byte {
